@@ -30,7 +30,12 @@ def strategy(tier):
 
     def mk(t):
         (x0, y0, w, h, ny, nx, dt, wdt, fill, copy, usemask,
-         wvals, dvals, mvals, order, pattern) = t
+         wvals, dvals, mvals, order, pattern, grow) = t
+        if grow:
+            # one case in twelve: a box and an image of a few thousand pixels
+            # (thresholds such as "at least 1024 pixels" are then crossed)
+            w, h = w * grow + 21, h * grow + 17
+            ny, nx = ny * grow + 11, nx * grow + 13
         if dt in ('int64', 'int16') and fill not in ('nan', 'inf', '-inf'):
             fill = float(int(fill))
         n = max(1, w * h)
@@ -75,7 +80,8 @@ def strategy(tier):
         st.tuples(st.sampled_from(['scattered', 'scattered', 'scattered',
                                    'rows_low', 'rows_high', 'cols_low',
                                    'cols_high', 'corner_ll', 'corner_ur',
-                                   'all_zero']), st.integers(1, 3))).map(mk)
+                                   'all_zero']), st.integers(1, 3)),
+        st.sampled_from([0] * 11 + [3, 4])).map(mk)
 
 
 def _f(v):
